@@ -110,3 +110,80 @@ def check(ctx, rule="R28.codec-wrapper", key="zstd-valid-frame|" + ZS + ":carque
     except sem.Inconclusive as ex:
         ctx.inconclusive(rule, key + "|small", P.where(fn.body), "a frame larger than the destination is reported as an error", str(ex))
     return n_sc
+
+
+# ---- compression side: status, and the state a reused context is left in
+C_MODELLED = {"ZSTD_maxCLevel", "ZSTD_minCLevel", "ZSTD_compress", "ZSTD_isError", "ZSTD_createCCtx", "ZSTD_freeCCtx", "ZSTD_CCtx_setParameter",
+              "ZSTD_compressStream2", "ZSTD_CCtx_reset", "ZSTD_compress2", "ZSTD_compressCCtx", "ZSTD_compressBound", "ZSTD_getErrorName",
+              "ZSTD_CCtx_setPledgedSrcSize", "ZSTD_defaultCLevel"}
+
+
+def check_compress(ctx, rule="R28.codec-wrapper", key="zstd-compress|" + ZS + ":carquet_zstd_compress"):
+    """carquet_zstd_compress against a model of libzstd: the one-shot entry points return a size or an error code;
+    a streaming call on a context either finishes the frame (0), leaves it unfinished (> 0: the destination was too
+    small) or fails - in the last two cases the context stays inside a frame until it is reset or freed.
+    The wrapper must report OK exactly when the frame was finished, and must not return with a context it keeps
+    still inside a frame (the next call on that thread would continue the dead frame)."""
+    P = ctx.P
+    fn = P.fn("carquet_zstd_compress", ZS)
+    what = ("carquet_zstd_compress reports OK exactly when the library finished the frame, and leaves no compression context inside an "
+            "unfinished frame (libzstd modelled: one-shot ok/error; streaming finished / unfinished / error; context available or not)")
+    unknown = sorted(x for x in _externals(P, fn) if x not in C_MODELLED and x not in MODELLED and not x.startswith("pthread_") and not x.startswith("__builtin"))
+    if unknown:
+        ctx.inconclusive(rule, key, P.where(fn.body), what, "library functions outside the model: %s" % ", ".join(unknown))
+        return 0
+    bad = None
+    n = 0
+    try:
+        for have_ctx in (True, False):
+            for outcome in ("finished", "unfinished", "error"):
+                n += 1
+                st = {"ctx": None, "dirty": False, "calls": 0}
+
+                def oneshot(ev, a, it, st=st):
+                    st["calls"] += 1
+                    return 33 if outcome == "finished" else ERR_BASE + 70
+
+                def stream(ev, a, it, st=st):
+                    st["calls"] += 1
+                    if outcome == "finished":
+                        st["dirty"] = False
+                        return 0
+                    st["dirty"] = True
+                    return 5 if outcome == "unfinished" else ERR_BASE + 70
+
+                def reset(ev, a, it, st=st):
+                    st["dirty"] = False
+                    return 0
+
+                def create(ev, a, it, st=st):
+                    if not have_ctx:
+                        return 0
+                    st["ctx"] = "live"
+                    return Ptr("cctx", 0, 1)
+
+                def freec(ev, a, it, st=st):
+                    st["ctx"] = "freed"
+                    st["dirty"] = False
+                    return 0
+                hooks = {"ZSTD_maxCLevel": lambda ev, a, it: 22, "ZSTD_minCLevel": lambda ev, a, it: -7, "ZSTD_defaultCLevel": lambda ev, a, it: 3,
+                         "ZSTD_compress": oneshot, "ZSTD_compress2": oneshot, "ZSTD_compressCCtx": oneshot,
+                         "ZSTD_isError": lambda ev, a, it: (1 if a[0] >= ERR_BASE else 0) if isinstance(a[0], int) else U,
+                         "ZSTD_createCCtx": create, "ZSTD_freeCCtx": freec, "ZSTD_CCtx_setParameter": lambda ev, a, it: 0,
+                         "ZSTD_CCtx_setPledgedSrcSize": lambda ev, a, it: 0, "ZSTD_compressStream2": stream, "ZSTD_CCtx_reset": reset,
+                         "ZSTD_compressBound": lambda ev, a, it: 1000, "ZSTD_getErrorName": lambda ev, a, it: Ptr("errname", 0, 1)}
+                args = [Ptr("src", 0, 1), 77, Ptr("dst", 0, 1), 1000, Ptr("out_size", 0, 8), 3]
+                ret, ev, heap = sem.run(P, fn, args, heap0={}, hooks=hooks, single=True, max_forks=8, budget=50000,
+                                        on_start=lambda st=st: st.update({"ctx": None, "dirty": False, "calls": 0}))
+                sc = "library outcome %s, compression context %s" % (outcome, "available" if have_ctx else "unavailable")
+                if st["calls"] == 0:
+                    bad = bad or "%s: no compression call is made" % sc
+                elif (ret == 0) != (outcome == "finished"):
+                    bad = bad or "%s: returns %s" % (sc, ret)
+                elif st["dirty"] and st["ctx"] == "live":
+                    bad = bad or "%s: returns %s with the context it keeps still inside the unfinished frame (no ZSTD_CCtx_reset / ZSTD_freeCCtx on this path)" % (sc, ret)
+    except sem.Inconclusive as ex:
+        ctx.inconclusive(rule, key, P.where(fn.body), what, str(ex))
+        return 0
+    ctx.ob(rule, key, P.where(fn.body), what, bad is None, bad or "")
+    return n
